@@ -15635,3 +15635,76 @@ func E11OffsetVerticesUseOffset(c *core.Ctx, r *core.Report) {
 	r.Count("E11.offset-vertices", n)
 	r.Floor("E11.offset-vertices", 6)
 }
+
+// E11SVGStyleElement: the style element is read for what it contains.
+func E11SVGStyleElement(c *core.Ctx, r *core.Report) {
+	r.Rule("E11.svg-style-element", "ParseSVG handles `<style>` by reading the tokens that follow its start tag. The branch reads them only when the start tag was not self-closing (a test of the token type that closed the tag against StartTagCloseVoidToken encloses the read), and it reports a malformed element only when what it finds in the end is not the end tag (the error is returned under a test against EndTagToken) — an element without text is valid. Otherwise `<style></style>` is rejected, and after `<style/>` the white space is parsed as a style sheet and the next element swallowed as the end tag")
+	p := c.MustPkg("")
+	info := p.TypesInfo
+	fd := core.MustFuncDecl(p, "ParseSVG")
+	var branch *ast.IfStmt
+	ast.Inspect(fd.Body, func(m ast.Node) bool {
+		is, ok := m.(*ast.IfStmt)
+		if !ok {
+			return true
+		}
+		if be, ok := core.Unparen(is.Cond).(*ast.BinaryExpr); ok && be.Op == token.EQL {
+			if s, ok := constString(info, be.Y); ok && s == "style" {
+				branch = is
+			} else if s, ok := constString(info, be.X); ok && s == "style" {
+				branch = is
+			}
+		}
+		return true
+	})
+	key := "canvas.ParseSVG|style element"
+	r.Count("E11.svg-style-element", 1)
+	if branch == nil {
+		r.Fail("E11.svg-style-element", key, c.Pos(fd.Pos()), "the branch that handles the style element was not found")
+		return
+	}
+	mentions := func(nd ast.Node, name string) bool {
+		hit := false
+		ast.Inspect(nd, func(k ast.Node) bool {
+			if se, ok := k.(*ast.SelectorExpr); ok && se.Sel.Name == name {
+				hit = true
+			}
+			return true
+		})
+		return hit
+	}
+	voidGuarded, endChecked := false, false
+	var stack []ast.Node
+	ast.Inspect(branch.Body, func(m ast.Node) bool {
+		if m == nil {
+			stack = stack[:len(stack)-1]
+			return true
+		}
+		stack = append(stack, m)
+		switch x := m.(type) {
+		case *ast.CallExpr:
+			if se, ok := x.Fun.(*ast.SelectorExpr); ok && se.Sel.Name == "Next" {
+				for _, anc := range stack {
+					if is, ok := anc.(*ast.IfStmt); ok && mentions(is.Cond, "StartTagCloseVoidToken") {
+						voidGuarded = true
+					}
+				}
+			}
+		case *ast.ReturnStmt:
+			for _, anc := range stack {
+				if is, ok := anc.(*ast.IfStmt); ok && mentions(is.Cond, "EndTagToken") {
+					endChecked = true
+				}
+			}
+		}
+		return true
+	})
+	switch {
+	case !voidGuarded:
+		r.Fail("E11.svg-style-element", key, c.Pos(branch.Pos()), "the tokens after the start tag are read whatever closed it: after a self-closing `<style/>` the following white space is taken for the style sheet and the next element is consumed as the end tag")
+	case !endChecked:
+		r.Fail("E11.svg-style-element", key, c.Pos(branch.Pos()), "the error is not tied to the end tag: `<style></style>`, which has no text token, is rejected as a bad style tag")
+	default:
+		r.OK("E11.svg-style-element", key, c.Pos(branch.Pos()), "")
+	}
+}
